@@ -22,7 +22,13 @@ EXTENDS Integers, Sequences, FiniteSets, TLC, Json, SequencesExt
 CONSTANTS Families,    \* set of <<H, W, kh, kw, r0, c0, rh, rw>>: frame, odd kernel shape, and a window
                        \* (top-left cell, size) inside which every non-empty mask is explored
           Variants,    \* subset of {"pos", "signed"}: the two kernels with identifiable entries
-          EvenKernels  \* set of <<kh, kw>> with an even side: these must be rejected
+          EvenKernels, \* set of <<kh, kw>> with an even side: these must be rejected
+          StructFamilies, \* set of <<H, W, kh, kw, r0, c0, rh, rw, level, masks>>: every STRUCTURED kernel of that shape
+                       \* (zero / cancelling / generic rows and columns, derivative kernels, single entries, zero
+                       \* padding; level "light" or "full") on the full window (masks = "full") or on every
+                       \* non-empty mask of the window (masks = "all")
+          SimFamilies  \* set of <<H, W, kh, kw, r0, c0, rh, rw>>: every mask of the window x EVERY combination of
+                       \* the simulator options that keep a simulation noise-free
 
 \* the mask vocabulary of Masks.tla (its machine is not used here)
 M == INSTANCE Masks WITH Shapes <- {}, KernelShapes <- {}, shape <- <<1, 1>>, U <- {}, phase <- "", obs <- << >>
@@ -173,37 +179,141 @@ FramesOp(frames, nOut) ==
 (* Kernels and probe data of the bounded machine *)
 
 \* distinct entries: the value identifies the kernel position, so operator tables show WHICH entry couples s to t
-KernelOf(variant, kh, kw) ==
-    [n \in 1 .. kh*kw |-> IF variant = "signed" /\ (((n-1) \div kw) + ((n-1) % kw)) % 2 = 1 THEN -n ELSE n]
+KernelOf(v, kh, kw) ==
+    [n \in 1 .. kh*kw |-> IF v = "signed" /\ (((n-1) \div kw) + ((n-1) % kw)) % 2 = 1 THEN -n ELSE n]
+
+\* ---- structured kernels: zeros and cancellations ------------------------------------------------------
+\* A kernel given by its rows; the transpose of a flat h x w kernel (a flat w x h kernel); a centred embedding
+\* of a small kernel into a larger zero kernel (what "zero-padded PSF" means); a single non-zero entry.
+FromRows(rows, kh, kw) == [n \in 1 .. kh*kw |-> rows[((n-1) \div kw) + 1][((n-1) % kw) + 1]]
+Transposed(k, h, w) == [n \in 1 .. w*h |-> k[((n-1) % h) * w + ((n-1) \div h) + 1]]
+Padded(k, kh, kw, KHH, KWW) ==
+    [n \in 1 .. KHH*KWW |-> LET a == ((n-1) \div KWW) - ((KHH - kh) \div 2)
+                               b == ((n-1) % KWW) - ((KWW - kw) \div 2)
+                           IN IF a >= 0 /\ a < kh /\ b >= 0 /\ b < kw THEN k[a * kw + b + 1] ELSE 0]
+Singles(kh, kw) == { [n \in 1 .. kh*kw |-> IF n = j THEN 5 ELSE 0] : j \in 1 .. kh*kw }
+
+\* Row alphabets by width: a zero row, rows that SUM TO ZERO WITH NON-ZERO ENTRIES (antisymmetric / asymmetric),
+\* a generic row, a row with one off-centre entry.
+Letters(w, level) ==
+    CASE w = 1 -> {<<0>>, <<3>>, <<-3>>}
+      [] w = 3 -> IF level = "full" THEN {<<0,0,0>>, <<1,0,-1>>, <<2,-3,1>>, <<1,2,3>>, <<0,0,5>>}
+                  ELSE {<<0,0,0>>, <<1,0,-1>>, <<1,2,3>>}
+      [] w = 5 -> IF level = "full" THEN {<<0,0,0,0,0>>, <<1,-2,0,3,-2>>, <<1,2,0,-2,-1>>, <<1,2,3,4,5>>}
+                  ELSE {<<0,0,0,0,0>>, <<1,-2,0,3,-2>>, <<1,2,3,4,5>>}
+      [] OTHER -> {}
+ZeroOrGeneric(w) == CASE w = 1 -> {<<0>>, <<3>>} [] w = 3 -> {<<0,0,0>>, <<1,2,3>>}
+                      [] w = 5 -> {<<0,0,0,0,0>>, <<1,2,3,4,5>>} [] OTHER -> {}
+\* every kernel whose first and last row range over `outer` and whose other rows range over `inner`
+RowKernels(kh, kw, outer, inner) ==
+    { FromRows(rows, kh, kw) : rows \in { f \in [1 .. kh -> outer \cup inner] :
+                                              \A a \in 1 .. kh : f[a] \in (IF a = 1 \/ a = kh THEN outer ELSE inner) } }
+\* ... by rows and (transposing the kw x kh row kernels) by columns
+PatternKernels(kh, kw, level) ==
+    LET innerR == IF kh = 3 /\ kw = 3 /\ level = "full" THEN Letters(kw, level)
+                  ELSE IF level = "full" THEN Letters(kw, "light") ELSE ZeroOrGeneric(kw)
+        innerC == IF kh = 3 /\ kw = 3 /\ level = "full" THEN Letters(kh, level)
+                  ELSE IF level = "full" THEN Letters(kh, "light") ELSE ZeroOrGeneric(kh)
+    IN RowKernels(kh, kw, Letters(kw, level), innerR)
+         \cup { Transposed(k, kw, kh) : k \in RowKernels(kw, kh, Letters(kh, level), innerC) }
+
+\* derivative / difference kernels (3x3): Sobel, Prewitt, Laplacians, Roberts-like diagonal, emboss
+Named3 == { <<1,0,-1, 2,0,-2, 1,0,-1>>, <<1,2,1, 0,0,0, -1,-2,-1>>, <<1,0,-1, 1,0,-1, 1,0,-1>>, <<1,1,1, 0,0,0, -1,-1,-1>>,
+            <<-1,-1,-1, -1,8,-1, -1,-1,-1>>, <<0,1,0, 1,-4,1, 0,1,0>>, <<1,0,0, 0,0,0, 0,0,-1>>, <<-2,-1,0, -1,1,1, 0,1,2>> }
+\* zero-padded kernels: 3x3 (or 3x1, 1x3) kernels embedded in the centre of the larger shape
+PaddedKernels(kh, kw) ==
+    LET ih == IF kh >= 3 THEN 3 ELSE 1
+        iw == IF kw >= 3 THEN 3 ELSE 1
+        small == IF ih = 3 /\ iw = 3 THEN Named3 \cup {KernelOf("pos", 3, 3), KernelOf("signed", 3, 3)}
+                 ELSE {KernelOf("pos", ih, iw), KernelOf("signed", ih, iw)} \cup PatternKernels(ih, iw, "light")
+    IN IF kh > ih \/ kw > iw THEN { Padded(k, ih, iw, kh, kw) : k \in small } ELSE {}
+
+StructKernels(kh, kw, level) ==
+    PatternKernels(kh, kw, level) \cup Singles(kh, kw) \cup PaddedKernels(kh, kw)
+        \cup (IF kh = 3 /\ kw = 3 THEN Named3 ELSE {})
+
+\* ---- simulation ----------------------------------------------------------------------------------------
+\* The non-negative kernel 1..n whose centre is raised so that the entries sum to a power of two (the normalised
+\* kernel K/sum is then exact in binary floating point); simulated data are counted in units of 1/sum.
+SumTo(k) == Sum(k)
+Pow2Kernel(kh, kw) ==
+    LET s == (kh*kw * (kh*kw + 1)) \div 2
+        q == CHOOSE p \in {1, 2, 4, 8, 16, 32, 64, 128, 256, 512, 1024} : p >= s /\ p < 2 * s
+        c == (kh \div 2) * kw + (kw \div 2) + 1
+    IN [n \in 1 .. kh*kw |-> IF n = c THEN n + q - s ELSE n]
+
+\* Every combination of the SimulatorImaging options that keep the simulated data noise-free
+\* (add_poisson_noise_to_data = FALSE throughout):
+\*   sky      background_sky_level, in data units (0, small, large, negative)
+\*   subtract subtract_background_sky
+\*   norm     "raw": unnormalised kernel, normalize_psf=True; "unit_norm": unit-sum kernel, normalize_psf=True;
+\*            "unit_asis": unit-sum kernel, normalize_psf=False
+\*   noise    "const1" / "const8th": include_poisson_noise_in_noise_map=False with noise_if_add_noise_false 1 / 0.125;
+\*            "poisson": include_poisson_noise_in_noise_map=True (noise-free data, realistic noise map)
+SimOptionSet == [sky : {0, 3, 64, -1}, subtract : BOOLEAN, norm : {"raw", "unit_norm", "unit_asis"},
+                 noise : {"const1", "const8th", "poisson"}]
+NoSim == [sky |-> 0, subtract |-> TRUE, norm |-> "none", noise |-> "none"]
+
+\* the sky that the returned data still contain
+SkyLeft(o) == IF o.subtract THEN 0 ELSE o.sky
+\* The documented steps of the simulation with noise off: 2) convolve with the PSF, 3) add the background sky,
+\* 4) (no noise), 5) subtract the background sky if requested.
+SimulatedData(img, K, H, W, kh, kw, o) ==
+    LET convolved == WholeFrame(img, K, H, W, kh, kw)
+        withSky   == [n \in 1 .. H*W |-> convolved[n] + o.sky]
+    IN [n \in 1 .. H*W |-> IF o.subtract THEN withSky[n] - o.sky ELSE withSky[n]]
 
 \* a signed native probe image with distinct values everywhere (also outside mask and blurring region: "junk")
 ProbeImage(H, W) == [n \in 1 .. H*W |-> IF n % 3 = 0 THEN -n ELSE n]
-\* a non-negative probe image (simulated data)
-ProbeImagePos(H, W) == [n \in 1 .. H*W |-> ((7 * n) % 5) + (n % 2)]
+\* a positive probe image (simulated data)
+ProbeImagePos(H, W) == [n \in 1 .. H*W |-> 2 + ((7 * n) % 5) + (n % 2)]
 \* a signed probe matrix with 2 columns, containing zeros, positive and negative entries
 ProbeMatrix(n) == [k \in 1 .. n |-> << IF k % 2 = 0 THEN -k ELSE k, IF k % 3 = 0 THEN 0 ELSE 2 - k >>]
 
 -----------------------------------------------------------------------------
 (* Layer 2: the bounded machine.                                                                             *)
-(*   Init       chooses frame, kernel shape, kernel variant and a mask inside the family window.             *)
+(*   Init       chooses frame, kernel shape, kernel (identifiable / structured / simulation kernel), simulator *)
+(*              options and a mask inside the family window.                                                  *)
 (*   Construct  = Convolver(mask, kernel): rejects even kernels, otherwise builds the frame tables.          *)
 (*   Extract    = convolve_image / convolve_image_no_blurring on basis images: the operator the frames       *)
 (*                realise; the instance and the operator tables of the DEFINITION are dumped for replay.     *)
+(*   Simulate   = SimulatorImaging(noise off).via_image_from -> apply_mask -> convolver.convolve_image of the *)
+(*                generating image (through the frame tables).                                               *)
 
-VARIABLES shape, ks, variant, U, phase, frames, op
-vars == << shape, ks, variant, U, phase, frames, op >>
+VARIABLES shape, ks, variant, kern, simopt, U, phase, frames, op, sim
+vars == << shape, ks, variant, kern, simopt, U, phase, frames, op, sim >>
 
 Window(f) == { << f[5] + a, f[6] + b >> : a \in 0 .. f[7] - 1, b \in 0 .. f[8] - 1 }
 
 Init == /\ phase = "input"
         /\ frames = << >>
         /\ op = << >>
-        /\ variant \in Variants
+        /\ sim = << >>
         /\ \/ \E f \in Families :
                  /\ shape = << f[1], f[2] >>
                  /\ ks = << f[3], f[4] >>
+                 /\ variant \in Variants
+                 /\ kern = KernelOf(variant, f[3], f[4])
+                 /\ simopt = NoSim
+                 /\ U \in (SUBSET Window(f)) \ {{}}
+           \/ \E f \in StructFamilies :
+                 /\ shape = << f[1], f[2] >>
+                 /\ ks = << f[3], f[4] >>
+                 /\ variant = "struct"
+                 /\ kern \in StructKernels(f[3], f[4], f[9])
+                 /\ simopt = NoSim
+                 /\ U \in (IF f[10] = "all" THEN (SUBSET Window(f)) \ {{}} ELSE {Window(f)})
+           \/ \E f \in SimFamilies :
+                 /\ shape = << f[1], f[2] >>
+                 /\ ks = << f[3], f[4] >>
+                 /\ variant = "sim"
+                 /\ kern = Pow2Kernel(f[3], f[4])
+                 /\ simopt \in SimOptionSet
                  /\ U \in (SUBSET Window(f)) \ {{}}
            \/ /\ ks \in EvenKernels
+              /\ variant \in Variants
+              /\ kern = KernelOf(variant, ks[1], ks[2])
+              /\ simopt = NoSim
               /\ shape = << 7, 7 >>
               /\ U = {<< 3, 3 >>}
 
@@ -211,7 +321,7 @@ HH == shape[1]
 WW == shape[2]
 KH == ks[1]
 KW == ks[2]
-Kern == KernelOf(variant, KH, KW)
+Kern == kern
 
 Construct ==
     /\ phase = "input"
@@ -222,24 +332,35 @@ Construct ==
             /\ frames' = << >>
             /\ PrintT(ToJson([k |-> "inst", h |-> HH, w |-> WW, kh |-> KH, kw |-> KW, variant |-> variant,
                               u |-> M!SlimSrc(U, HH, WW), even |-> TRUE]))
-    /\ UNCHANGED << shape, ks, variant, U, op >>
+    /\ UNCHANGED << shape, ks, variant, kern, simopt, U, op, sim >>
 
 Extract ==
     /\ phase = "built"
     /\ phase' = "observed"
     /\ op' = [img |-> FramesOp(frames.img, Cardinality(U)), blur |-> FramesOp(frames.blur, Cardinality(U))]
     /\ PrintT(ToJson([k |-> "inst", h |-> HH, w |-> WW, kh |-> KH, kw |-> KW, variant |-> variant,
-                      u |-> M!SlimSrc(U, HH, WW), even |-> FALSE, kern |-> Kern,
+                      u |-> M!SlimSrc(U, HH, WW), even |-> FALSE, kern |-> Kern, simopt |-> simopt,
                       opi |-> OpImage(U, Kern, HH, WW, KH, KW), opb |-> OpBlur(U, Kern, HH, WW, KH, KW)]))
-    /\ UNCHANGED << shape, ks, variant, U, frames >>
+    /\ UNCHANGED << shape, ks, variant, kern, simopt, U, frames, sim >>
 
-Next == Construct \/ Extract
+Simulate ==
+    /\ phase = "observed"
+    /\ variant = "sim"
+    /\ phase' = "simulated"
+    /\ LET nat == ProbeImagePos(HH, WW)
+           us  == SlimSeq(U, HH, WW)
+       IN sim' = [data  |-> GatherOn(SimulatedData(nat, Kern, HH, WW, KH, KW, simopt), us, WW),
+                  model |-> ConvolveByFrames(frames, GatherOn(nat, us, WW),
+                                             GatherOn(nat, BlSeq(U, HH, WW, KH, KW), WW), Cardinality(U))]
+    /\ UNCHANGED << shape, ks, variant, kern, simopt, U, frames, op >>
+
+Next == Construct \/ Extract \/ Simulate
 Spec == Init /\ [][Next]_vars
 
 -----------------------------------------------------------------------------
 (* Layer 3: design-level theorems, checked by TLC on every instance *)
 
-Built == phase \in {"built", "observed"}
+Built == phase \in {"built", "observed", "simulated"}
 Seen == phase = "observed"
 NU == Cardinality(U)
 NB == Cardinality(Blurring(U, HH, WW, KH, KW))
@@ -270,10 +391,22 @@ OperatorTableIsDefinitionOnBasis ==
 \* the arithmetic blurring region used here is the blurring set of Masks.tla (C10)
 BlurringIsMasksBlurring == Built => Blurring(U, HH, WW, KH, KW) = M!Blurring(U, HH, WW, KH, KW)
 
-\* the frame tables (second formulation) realise exactly that operator
+\* the frame tables (second formulation) realise exactly that operator -- for EVERY kernel, whatever zeros or
+\* cancelling rows / columns it has: no part of a kernel can be dropped on account of its sum
 FramesImplementDefinition ==
     Seen => /\ op.img = OpImage(U, Kern, HH, WW, KH, KW)
             /\ op.blur = OpBlur(U, Kern, HH, WW, KH, KW)
+
+\* genuinely zero-padded kernels, and only those, are the same operator as their unpadded core: removing a border
+\* row pair / column pair leaves the operator unchanged iff every ENTRY of the pair is zero (for a mask whose
+\* blurring region reaches the border offsets, as all families here do)
+PaddingIsEntrywise ==
+    (Seen /\ variant = "struct" /\ KH >= 3) =>
+        LET core == [n \in 1 .. (KH-2)*KW |-> Kern[n + KW]]
+            borderZero == \A n \in 1 .. KW : Kern[n] = 0 /\ Kern[(KH-1)*KW + n] = 0
+            sameOp == /\ OpImage(U, core, HH, WW, KH-2, KW) = op.img
+                      /\ OpTable(BlSeq(U, HH, WW, KH, KW), SlimSeq(U, HH, WW), core, KH-2, KW) = op.blur
+        IN borderZero <=> sameOp
 
 \* ... and on a signed image with junk outside mask and blurring region the scatter-accumulate gives the definition
 ScatterIsMaskedBlur ==
@@ -295,14 +428,24 @@ ScatterIsMaskedBlur ==
 MatrixIsColumnwise ==
     Seen => LET m == ProbeMatrix(NU) IN ScatterMatrix(frames.img, m, NU) = BlurMatrix(U, Kern, HH, WW, KH, KW, m)
 
-\* hence simulate (whole frame) -> mask -> fit with the generating image leaves a residual of exactly zero
+\* hence simulate (whole frame, any noise-free option combination) -> mask -> fit with the generating image: the data,
+\* less the sky that was declared left in, are fitted with a residual of exactly zero
 SimulateThenFitResidualZero ==
     Seen => LET nat  == ProbeImagePos(HH, WW)
                 us   == SlimSeq(U, HH, WW)
-                data == GatherOn(WholeFrame(nat, Kern, HH, WW, KH, KW), us, WW)
+                conv == WholeFrameOn(nat, Kern, HH, WW, KH, KW, us)
                 model == MaskedBlurOfNative(U, Kern, HH, WW, KH, KW, nat)
-            IN /\ [k \in 1 .. NU |-> data[k] - model[k]] = Zeros(NU)
-               /\ data = WholeFrameOn(nat, Kern, HH, WW, KH, KW, us)
+            IN /\ conv = model
+               /\ conv = GatherOn(WholeFrame(nat, Kern, HH, WW, KH, KW), us, WW)
+               /\ \A sky \in {0, 3, 64, -1} : \A sub \in BOOLEAN :
+                     LET o == [sky |-> sky, subtract |-> sub, norm |-> "raw", noise |-> "const1"]
+                     IN [k \in 1 .. NU |-> (conv[k] + sky - (IF sub THEN sky ELSE 0)) - SkyLeft(o) - model[k]] = Zeros(NU)
+\* the same, as the simulator's step sequence and the frame tables compute it
+SimulatedDataFitsGeneratingImage ==
+    phase = "simulated" =>
+        /\ Len(sim.data) = NU /\ Len(sim.model) = NU
+        /\ \A k \in 1 .. NU : sim.data[k] - SkyLeft(simopt) - sim.model[k] = 0
+        /\ simopt.subtract => sim.data = WholeFrameOn(ProbeImagePos(HH, WW), Kern, HH, WW, KH, KW, SlimSeq(U, HH, WW))
 
 \* every unmasked pixel couples to itself through the central kernel entry; homogeneity in the kernel
 CentreAndHomogeneity ==
